@@ -489,6 +489,12 @@ class NodeDeref:
                     "Default value not allowed in string dereference",
                     self.pos,
                 )
+            if not idx.isInt():
+                raise CklRuntimeError(
+                    ValueString("ERROR"),
+                    f"Index must be an int but got {idx.type()}",
+                    self.pos,
+                )
             s = value.value
             i = int(idx.value)
             if i < 0:
@@ -504,6 +510,12 @@ class NodeDeref:
                 raise CklRuntimeError(
                     ValueString("ERROR"),
                     "Default value not allowed in list dereference",
+                    self.pos,
+                )
+            if not idx.isInt():
+                raise CklRuntimeError(
+                    ValueString("ERROR"),
+                    f"Index must be an int but got {idx.type()}",
                     self.pos,
                 )
             lst = value.value
@@ -572,6 +584,13 @@ class NodeDerefAssign:
         value = self.value.evaluate(environment)
 
         if container.isString():
+            if not idx.isInt() or not value.isString():
+                raise CklRuntimeError(
+                    ValueString("ERROR"),
+                    "String element assignment needs an int index and a "
+                    f"string but got {idx.type()} and {value.type()}",
+                    self.pos,
+                )
             s = container.value
             i = int(idx.value)
             if i < 0:
@@ -584,6 +603,12 @@ class NodeDerefAssign:
             return container
 
         if container.isList():
+            if not idx.isInt():
+                raise CklRuntimeError(
+                    ValueString("ERROR"),
+                    f"Index must be an int but got {idx.type()}",
+                    self.pos,
+                )
             lst = container.value
             i = int(idx.value)
             if i < 0:
@@ -699,6 +724,13 @@ class NodeDerefSlice:
 
         if value == NULL:
             return NULL
+
+        if not start.isInt() or (end and not end.isInt()):
+            raise CklRuntimeError(
+                ValueString("ERROR"),
+                "Slice bounds must be ints",
+                self.pos,
+            )
 
         if value.isString():
             s = value.value
